@@ -8,6 +8,9 @@ from fractions import Fraction
 from vlib.core import SplitMix
 
 UNIT = 2 ** 50
+# Vivaldi zones with arbitrary coordinates: the observed term and the sums that contain it are rounded by the library's
+# double arithmetic (sqrt, / 1000.0, a few additions of values below 32 s): 2^-40 s absolute
+APPROX_TOL = 2 ** 10
 ROUTED = ("full", "floyd", "dijkstra", "dijkstracache")
 # The defect `bypass-tail-in-dijkstra-zone` is fixed (fix_series/01-…): the model follows the fixed code, a monitor failure
 # is a plain violation (no classification key any more); its witness is the corpus case `bypass-dijkstra`, the generator
@@ -38,6 +41,10 @@ class Gen:
         self.coords = {}
         self.feat = set()
         self.approx = False
+        self.torus = {}           # torus zone -> (dims, link latency)
+        # Vivaldi coordinates of the whole platform: exact lane (every distance a perfect square, every term dyadic:
+        # compared exactly) or arbitrary dyadic coordinates (compared with the case's tolerance)
+        self.viv_exact = rng.chance(1, 2)
 
     # ---- elements
     def zone(self, parent, kind):
@@ -111,14 +118,57 @@ class Gen:
         elif kind == "star":
             self.fill_star(z, plain, Z["kids"])
         elif kind == "vivaldi":
-            for h in plain:
-                self.coords[h] = (r.range(-40, 40), r.range(-40, 40), r.range(0, 9))
-                # what VivaldiZone::set_peer_link does: one up route and one down route per peer
-                self.route(z, h, None, None, None, False, self.pick_links(z, 1, 1))
-                self.route(z, None, h, None, None, False, self.pick_links(z, 1, 1))
-            self.approx = True
-            self.feat.add("vivaldi")
+            self.fill_vivaldi(z, plain, Z["kids"])
         # empty: nothing
+
+    def viv_coords(self, z, verts):
+        """coordinates (x, y, h) in ms, as floats that std::stod reads back exactly"""
+        r = self.r
+        if self.viv_exact:
+            # collinear points along a Pythagorean direction, steps and heights multiples of 125 / 2^j ms:
+            # sqrt(dx^2 + dy^2) is an integer multiple of the step and (dist + |h1| + |h2|) / 1000 is dyadic
+            a, b = r.choice([(1, 0), (0, 1), (3, 4), (4, 3), (-3, 4), (5, 12), (8, -15), (-4, -3)])
+            step = 125.0 / (1 << r.below(3))
+            ox, oy = r.range(-3, 3) * step, r.range(-3, 3) * step
+            for v in verts:
+                k = r.range(-6, 6)
+                self.coords[v] = (ox + a * k * step, oy + b * k * step, r.range(-4, 4) * step)
+            self.feat.add("vivaldi-exact-lane")
+        else:
+            for v in verts:
+                q = 1 << r.below(3)
+                self.coords[v] = (r.range(-160, 160) / q, r.range(-160, 160) / q, r.range(-36, 36) / 4.0)
+            self.approx = True
+            self.feat.add("vivaldi-approx-lane")
+        if any(c[2] < 0 for c in (self.coords[v] for v in verts)):
+            self.feat.add("vivaldi-negative-height")
+
+    def fill_vivaldi(self, z, plain, kids):
+        r = self.r
+        self.viv_coords(z, plain + kids)       # every vertex has coordinates (a missing one is an xbt_assert: corpus)
+        for v in plain + kids:
+            iszone = v in kids
+            if iszone and not self.gw_candidates(v):
+                continue
+            g = r.choice(self.gw_candidates(v)) if iszone else None
+            g2 = r.choice(self.gw_candidates(v)) if iszone else None
+            # what VivaldiZone::set_peer_link does: one up route and one down route per peer
+            up = self.pick_links(z, 1, 2 if r.chance(1, 4) else 1)
+            if r.chance(1, 6):
+                down = list(up)          # the same link up and down: add_links_to_route skips the duplicate on v -> v
+                self.feat.add("vivaldi-shared-updown")
+            else:
+                down = self.pick_links(z, 1, 1)
+            if r.chance(1, 8):
+                self.route(z, v, None, g, None, True, up)
+                self.feat.add("vivaldi-sym")
+            else:
+                self.route(z, v, None, g, None, False, up)
+                self.route(z, None, v, None, g2, False, down)
+            if r.chance(1, 8):
+                self.route(z, v, v, g, g, False, self.pick_links(z, 1, 1))
+                self.feat.add("vivaldi-loopback")
+        self.feat.add("vivaldi-zones" if kids else "vivaldi")
 
     def gws(self, a, b, mode):
         if mode != "zone":
@@ -287,25 +337,34 @@ class Gen:
         if levels == 1:
             top = self.zone(0, r.choice(["full", "floyd", "dijkstra", "dijkstracache", "star", "vivaldi"]))
             for _ in range(min(budget, r.range(2, 14))):
-                (self.host if self.zones[top]["kind"] == "vivaldi" or r.chance(4, 5) else self.router)(top)
+                (self.host if r.chance(4, 5) else self.router)(top)
         else:
-            topkind = r.choice(["full", "full", "floyd", "dijkstra", "dijkstracache", "star", "star"] +
+            topkind = r.choice(["full", "full", "floyd", "dijkstra", "dijkstracache", "star", "star", "vivaldi"] +
                                (["empty"] if self.profile == "holes" else []))
+            if self.profile != "holes" and r.chance(1, 8):
+                # the whole platform is one torus of netzones (levels 2) — no router: every route crosses the torus
+                self.torus_zone(0, with_router=r.chance(1, 3), budget=budget)
+                self.finish()
+                return self
             top = self.zone(0, topkind)
             nk = r.range(2, 4)
             left = budget
-            if topkind == "star":
+            if topkind in ("star", "vivaldi"):
                 for _ in range(r.below(3)):
                     self.host(top)
                     left -= 1
             for i in range(nk):
                 mid = levels == 3 and (i == 0 or r.chance(1, 2))
+                if self.profile != "holes" and r.chance(1, 5 if levels == 3 else 8):
+                    # a cluster-like zone (torus of netzones, reached from outside through its router) among the children
+                    left -= self.torus_zone(top, with_router=True, budget=max(4, left // 2))
+                    continue
                 if mid:
-                    z = self.zone(top, r.choice(["star", "star", "star", "full"] + (["empty"] if self.profile == "holes" else [])))
+                    z = self.zone(top, r.choice(["star", "star", "star", "full", "vivaldi"] + (["empty"] if self.profile == "holes" else [])))
                     # direct netpoints of the mid zone: gateways towards the top
                     for _ in range(r.range(1, 2)):
                         # a host directly in a Full/Empty zone with children cannot be routed to them: routers there
-                        if self.zones[z]["kind"] != "star" and self.profile != "holes":
+                        if self.zones[z]["kind"] not in ("star", "vivaldi") and self.profile != "holes":
                             self.router(z)
                         else:
                             (self.router if r.chance(2, 3) else self.host)(z)
@@ -316,7 +375,7 @@ class Gen:
                         if self.zones[c]["kind"] == "empty" and (self.profile != "holes" or r.chance(2, 3)):
                             n = 1
                         for _ in range(n):
-                            if self.zones[c]["kind"] == "vivaldi" or r.chance(5, 6):
+                            if r.chance(5, 6):
                                 self.host(c)
                             else:
                                 self.router(c)
@@ -327,14 +386,57 @@ class Gen:
                     if self.zones[z]["kind"] == "empty" and (self.profile != "holes" or r.chance(2, 3)):
                         n = 1
                     for _ in range(n):
-                        if self.zones[z]["kind"] == "vivaldi" or r.chance(5, 6):
+                        if r.chance(5, 6):
                             self.host(z)
                         else:
                             self.router(z)
                     left -= n
+        self.finish()
+        return self
+
+    def torus_zone(self, parent, with_router, budget):
+        """a TorusZone whose leaves are netzones (ClusterBase::fill_leaf_from_cb with a netzone callback): the leaf's
+        default gateway becomes the entry of the torus' gateway table, returned as gw_src / gw_dst of its local routes.
+        Returns the number of netpoints created."""
+        r = self.r
+        if r.chance(1, 3):
+            # a fat tree (same ClusterBase leaves / gateway table): down;up;count per level, leaves = product of `down`
+            kind = "fattree"
+            down, up, cnt = r.choice([([2], [1], [1]), ([3], [1], [1]), ([4], [2], [1]), ([2, 2], [1, 2], [1, 1]),
+                                      ([2, 3], [1, 2], [1, 1]), ([3, 2], [1, 1], [1, 2])])
+            dims = down
+            spec = ";".join(",".join(map(str, v)) for v in (down, up, cnt))
+        else:
+            kind = "torus"
+            dims = r.choice([[2], [3], [4], [2, 2], [3, 2], [2, 3]])
+            spec = ",".join(map(str, dims))
+        t = self.zone(parent, kind)
+        self.torus[t] = (spec, float(r.range(1, 4096)) / 4096.0)
+        n = 1
+        for d in dims:
+            n *= d
+        used = 0
+        for _ in range(n):
+            c = self.zone(t, r.choice(["star", "star", "full", "floyd", "vivaldi", "dijkstra"]))
+            k = r.range(1, max(1, min(3, budget // n)))
+            for _ in range(k):
+                (self.host if r.chance(5, 6) else self.router)(c)
+            used += k
+            # fill_leaf_from_cb asserts that the leaf has a default gateway: single host / single router / explicit
+            if not self.has_default(c) or r.chance(1, 3):
+                self.gwsets.append((c, r.choice(self.plain(c))))
+        if with_router:
+            self.router(t)       # created after the last leaf: netpoint ids = leaf positions
+            used += 1
+            self.feat.add("cluster-with-router")
+        self.feat.add("%s-of-netzones-%s" % (kind, "x".join(map(str, dims))))
+        return used
+
+    def finish(self):
+        r = self.r
         # explicit default gateways for some zones (others: single-host rule, single-router rule, or none)
         for z in self.zones:
-            if z >= 1 and self.plain(z) and r.chance(1, 3):
+            if z >= 1 and self.plain(z) and r.chance(1, 3) and not any(g[0] == z for g in self.gwsets):
                 self.gwsets.append((z, r.choice(self.plain(z))))
         # children of a Full / Empty mid-level zone are reached through an *inferred* gateway: give them one
         for z, Z in self.zones.items():
@@ -349,17 +451,23 @@ class Gen:
             if z >= 1:
                 self.fill_zone(z)
         self.add_bypasses()
-        return self
 
     def emit(self):
-        L = ["new %s" % self.cid, "tol %d" % (2 ** 16 if self.approx else 0)]
+        L = ["new %s" % self.cid, "tol %d" % (APPROX_TOL if self.approx else 0)]
+        fl = lambda c: " ".join(repr(float(x)) for x in c)
         for z, Z in self.zones.items():
-            L.append("zone %d %s %s" % (z, "-" if Z["parent"] is None else Z["parent"], Z["kind"]))
+            extra = ""
+            if Z["kind"] in ("torus", "fattree"):
+                spec, lat = self.torus[z]
+                extra = " %s %s" % (spec, lat.hex())
+            if z in self.coords:
+                extra += " " + fl(self.coords[z])
+            L.append("zone %d %s %s%s" % (z, "-" if Z["parent"] is None else Z["parent"], Z["kind"], extra))
         hosts = []
         for z, Z in self.zones.items():
             for n in sorted(Z["hosts"] + Z["routers"]):
                 c = self.coords.get(n)
-                L.append("np %d %d %s%s" % (n, z, "h" if n in Z["hosts"] else "r", " %d %d %d" % c if c else ""))
+                L.append("np %d %d %s%s" % (n, z, "h" if n in Z["hosts"] else "r", " " + fl(c) if c else ""))
                 if n in Z["hosts"]:
                     hosts.append(n)
         for l, lat, z in self.links:
@@ -429,6 +537,10 @@ def canon(line):
         at[2] = units(at[2])
     elif k == "R":
         at[0] = units(at[0])
+    elif k == "C":
+        # Vivaldi coordinates: exact rationals num/den
+        fr = [Fraction(float.fromhex(x)) for x in at]
+        at = ["%d/%d" % (f.numerator, f.denominator) for f in fr]
     return q + " => " + " ".join(at)
 
 
@@ -449,15 +561,22 @@ def load_corpus(path):
 
 def run(ctx):
     ctx.cov["rule"] = ("platforms drawn from splitmix64(VERIF_SEED, index): 1-3 levels below the root, <= 40 hosts, zone kinds "
-                       "Full/Floyd/Dijkstra/DijkstraCache/Star/Empty/Vivaldi, symmetric / one-way / missing routes, 1-3 links per "
+                       "Full/Floyd/Dijkstra/DijkstraCache/Star/Empty/Vivaldi (leaf, mid-level and top, with child zones) and "
+                       "Torus zones whose leaves are netzones (netzone callback; with and without a router towards the outside), "
+                       "symmetric / one-way / missing routes, 1-3 links per "
                        "route, explicit / single-host / single-router / absent default gateways, bypass routes (direct and "
-                       "between zones at different depths); non-trivial = distinct (platform, src, dst) with src != dst whose "
-                       "implementation route has >= 1 link")
+                       "between zones at different depths), Vivaldi coordinates in an exact lane (perfect squares, dyadic terms) "
+                       "and an arbitrary lane (negative heights, routers, zones); non-trivial = distinct (platform, src, dst) "
+                       "with src != dst whose implementation route has >= 1 link")
     ctx.assumptions += ["each zone's local routing function is taken as observed (get_local_route on every vertex pair); "
                         "C25/C26 cover what is inside the zones",
-                        "Vivaldi coordinate terms are compared with an absolute tolerance of 2^-34 s (sqrt and /1000 are inexact); "
-                        "all other latencies are dyadic and compared exactly",
-                        "Cluster/Torus/FatTree/Dragonfly/Wifi leaf zones are not generated here (their local routing is C26)"]
+                        "Star and Vivaldi zones are an exception: their answers (links, gateways, coordinate term) are recomputed "
+                        "by the model from the declared routes and the coordinates read back from the library",
+                        "Vivaldi coordinate terms: exact lane (collinear Pythagorean coordinates, steps of 125/2^j ms) compared "
+                        "exactly; other coordinates compared with the rational bracket of the model's term widened by 2^-40 s "
+                        "(rounding of the library's double arithmetic); all other latencies are dyadic and compared exactly",
+                        "cluster-like zones: Torus zones with netzone leaves are generated (their local routing itself is "
+                        "observed: C26); FatTree/Dragonfly/Wifi zones are not generated here (same ClusterBase gateway code)"]
     ctx.ensure_simgrid(["simgrid"])
     ctx.lean_prove()
     drv = ctx.lean_exe()
